@@ -32,14 +32,19 @@ class Scenario:
         return d
 
 
-def gen_values(tape, nmax=4, label="vals", typ=None):
-    typ = typ or tape.weighted([("int", 4), ("float", 1), ("str", 1)], label + "-type")
-    pool = tape.perm(POOLS[typ], label + "-perm")
+def gen_values(tape, nmax=4, label="vals", typ=None, allow_mixed=False):
+    typ = typ or tape.weighted([("int", 4), ("float", 1), ("str", 1)] + ([("mixed", 1)] if allow_mixed else []),
+                               label + "-type")
+    if typ == "mixed":
+        # one argument's values of different types (no two of them equal)
+        pool = tape.perm(POOLS["int"][:3] + POOLS["float"][:2] + POOLS["str"][:2], label + "-perm")
+    else:
+        pool = tape.perm(POOLS[typ], label + "-perm")
     n = tape.int_between(1, nmax, label + "-n")
     return typ, pool[:n]
 
 
-def gen_sweep(tape, max_n=40, kinds=None, allow_cases=True, max_args=4):
+def gen_sweep(tape, max_n=40, kinds=None, allow_cases=True, max_args=4, allow_mixed=False):
     kind = tape.weighted(kinds or KINDS, "kind")
     mode = tape.weighted([("combos", 3), ("cases", 1), ("mixed", 1)], "mode") \
         if allow_cases else "combos"
@@ -58,7 +63,7 @@ def gen_sweep(tape, max_n=40, kinds=None, allow_cases=True, max_args=4):
     combos = []
     n = 1
     for a in combo_args:
-        _, vals = gen_values(tape, 4, "cv")
+        _, vals = gen_values(tape, 4, "cv", allow_mixed=allow_mixed)
         # keep the total number of settings bounded
         while n * len(vals) > max_n and len(vals) > 1:
             vals = vals[:-1]
